@@ -294,6 +294,42 @@ def run_outputs(params, known):
                                         v = Violation(PROP, 'crc', found[0], dict(), '%r: %s' % (label, found[1])).as_dict()
                                         v['case'] = dict(label=label, output=out.hex())
                                         violations.append(v)
+    # bundles with many blocks (the outer array / item counts cross the one-octet CBOR head at 24): forwarded and local
+    for nblocks in (21, 22, 23, 24, 30):
+        for origin in ('local', 'forward'):
+            for crc in (1, 2):
+                idx += 1
+                if idx % parts != part:
+                    continue
+                count += 1
+                bundle = c05.make_bundle(40, crc, 'none', 0, origin)
+                pay = bundle['blocks'][-1]
+                bundle['blocks'] = [dict(type=200 + (k % 20), num=k + 2, flags=0, crc_type=crc, data=b'blk%d' % k) for k in range(nblocks)] + [pay]
+                world = c05.run_send(bundle, None, origin, False)
+                label = dict(extension_blocks=nblocks, origin=origin, crc=crc)
+                sent = world.sent()
+                keys.add('many/%d/%s/%d/%d' % (nblocks, origin, crc, len(sent)))
+                if len(sent) != 1 and 'nothing-sent' not in kinds:
+                    kinds.add('nothing-sent')
+                    v = Violation(PROP, 'crc', 'nothing-sent', dict(), '%r: %d bundles reached the convergence layer (%r)' % (label, len(sent), world.api_errors[:1])).as_dict()
+                    v['case'] = dict(label=label, output='')
+                    violations.append(v)
+                for out in sent:
+                    try:
+                        od = B.decode(out)
+                        bad = [('primary' if i == 0 else 'block %d' % blk['num'])
+                               for (i, blk) in enumerate([od['primary']] + od['blocks']) if not blk['crc_ok']]
+                        found = ('crc-invalid-on-output', 'invalid CRC in %s' % ', '.join(bad)) if bad else None
+                        if found is None and sum(1 for blk in od['blocks'] if blk['type'] >= 200 or blk['type'] == 1) != nblocks + 1:
+                            found = ('output-not-rfc9171', '%d of the %d blocks handed over are on the wire' % (
+                                sum(1 for blk in od['blocks'] if blk['type'] >= 200 or blk['type'] == 1), nblocks + 1))
+                    except B.Malformed as err:
+                        found = ('output-not-rfc9171', '%s: %s' % (err, out.hex()[:200]))
+                    if found and found[0] not in kinds:
+                        kinds.add(found[0])
+                        v = Violation(PROP, 'crc', found[0], dict(), '%r: %s' % (label, found[1])).as_dict()
+                        v['case'] = dict(label=label, output=out.hex())
+                        violations.append(v)
     return dict(name=params['name'], evaluations=count, nontrivial_keys=sorted(keys), distinct_nontrivial=len(keys),
                 violations=violations, known=[], samples=[])
 
@@ -322,7 +358,7 @@ ASSUMPTIONS = [
     'error patterns per start bit: the single flip; every burst pattern of length 2..8 (quick) / 2..11 (thorough); for longer bursts up to the CRC width the solid and the end-points-only pattern (quick: lengths 12, width-1, width; thorough: every length)',
     'every enumerated corruption must be dropped without trace; they are classified by the independent side as: block boundaries kept (the CRC carried in the block then cannot match the received octets), bundle still found by the independent decoder with a failing CRC, or no longer an RFC 9171 bundle at all (e.g. an array head turned into a break, leaving octets after the bundle); a corruption after which every CRC still verifies (impossible for these patterns) would be counted and not judged',
     'cases are delivered in batches of 64 to one agent followed by the pristine copy; a batch with any observable effect, or after which the pristine copy is not processed exactly as it is alone, is repeated case by case on fresh agents',
-    'output side: 5 CRC settings x extension sets x {local, forwarded, forwarded from a clockless source} x integrity block x payload 0/1/40/300 x whole / 2 / 3 fragments x reports requested; every octet string reaching the convergence layer has every CRC recomputed',
+    'output side: 5 CRC settings x extension sets x {local, forwarded, forwarded from a clockless source} x integrity block x payload 0/1/40/300 x whole / 2 / 3 fragments x reports requested, and bundles of 21-30 extension blocks; every octet string reaching the convergence layer has every CRC recomputed',
     'twelve bundles: CRC-16/CRC-32/mixed, fragment, administrative record, dtn and ipn endpoint IDs, empty payload',
 ]
 
